@@ -2,7 +2,7 @@ import MayVerif.Proof.Io.Inv
 namespace MayVerif.Io
 
 set_option maxHeartbeats 8000000 in
-theorem inv2_wstep (st st' : St) (w : Wk) (pc : WPc) (e : Env) (h : Inv1 st) (h2 : Inv2 st)
+theorem inv2_wstep (st st' : St) (w : Wk) (pc : WPc) (e : Env) (hc : Cfg st) (h : Inv1 st) (h2 : Inv2 st)
     (hpc : st.wpc w = pc) (hs : wstep st w pc e = some st') : Inv2 st' := by
   prep2
   have hlw := lw w; have hww := ww w
@@ -10,9 +10,11 @@ theorem inv2_wstep (st st' : St) (w : Wk) (pc : WPc) (e : Env) (h : Inv1 st) (h2
   | idle => cases e <;> crunch2
   | sTake s => crunch2
   | sDis s c => simp [hpc, wHolds] at hlw hww; crunch2
+  | fChk s t => crunch2
   | fOr s t => crunch2
   | fTake s t => crunch2
   | xio c => crunch2
   | xtake s => crunch2
+  | xDis s c => simp [hpc, wHolds] at hlw hww; crunch2
 
 end MayVerif.Io
